@@ -224,4 +224,4 @@ async fn renew_certificate(
 
 #[cfg(feature = "breard_r_acmed_verif")]
 #[path = "/verif/probe/main_event_loop_probe.rs"]
-mod verif;
+pub(crate) mod verif;
